@@ -168,6 +168,8 @@ pub fn random_cfg(r: &mut Rng) -> Config {
 
 thread_local! {
     pub static IN_FMT: std::cell::Cell<bool> = std::cell::Cell::new(false);
+    /// location of the last panic caught inside the code under test (set by the panic hook)
+    pub static LAST_PANIC_AT: std::cell::RefCell<String> = std::cell::RefCell::new(String::new());
 }
 
 pub enum Outcome {
@@ -201,7 +203,8 @@ pub fn fmt(code: &str, c: Config, range: Option<Range>, verify: bool) -> Outcome
             } else {
                 "panic".to_string()
             };
-            Outcome::Panic(msg)
+            let at = LAST_PANIC_AT.with(|l| l.borrow().clone());
+            Outcome::Panic(format!("{} @ {}", msg, at))
         }
     }
 }
